@@ -232,3 +232,45 @@ Proof.
   - rewrite step_blk by exact SK. cbn zeta. rewrite E, andb_false_r.
     destruct e; cbn [handled st_blk]; try reflexivity. exfalso. eapply NS. reflexivity.
 Qed.
+
+(* ------------------------------------------------------------------ a result that does not mention the battery *)
+(* reachable states: NOT_WORKING is reported only while the data are not both healthy *)
+Definition nw_not_ok (s : state) : Prop := st_last s = NotWorking -> both_ok s = false.
+
+Lemma step_nw_not_ok : forall c s now e, nw_not_ok s -> nw_not_ok (fst (step c s now e)).
+Proof.
+  intros c s now e H. rewrite step_spec. destruct (skipped c s now e); [exact H|].
+  unfold nw_not_ok. rewrite finish_last. unfold both_ok. rewrite finish_bat, finish_inv.
+  fold (both_ok (handled c s now e)). unfold settled.
+  destruct (both_ok (handled c s now e)); cbn [negb]; [|reflexivity].
+  destruct (st_last (handled c s now e)); try discriminate;
+    destruct (is_blocked now (st_blk (handled c s now e))); discriminate.
+Qed.
+
+Lemma final_nw_not_ok : forall c tr s, nw_not_ok s -> nw_not_ok (final c s tr).
+Proof.
+  intros c tr. induction tr as [|[now e] tr IH]; intros s H; [exact H|].
+  rewrite final_cons. apply IH. apply step_nw_not_ok. exact H.
+Qed.
+
+(* After every history: a set-power result that mentions the battery in neither set leaves
+   its blocking state (deadline and last duration) and its failure streak untouched. *)
+Lemma not_mentioned_keeps_blocking : forall c ts0 tr now sp,
+  let s := final c (init c ts0) tr in
+  let s' := fst (step c s now (SetPower false false)) in
+  st_blk s' = st_blk s /\ spec_effect c s s' now (SetPower false false) sp = sp /\
+  st_bat s' = st_bat s /\ st_inv s' = st_inv s.
+Proof.
+  intros c ts0 tr now sp s s'.
+  assert (N : nw_not_ok s) by (apply final_nw_not_ok; intros _; reflexivity).
+  assert (R : both_ok s && status_eqb (st_last s) NotWorking = false).
+  { destruct (status_eqb (st_last s) NotWorking) eqn:E; [|apply andb_false_r].
+    apply status_eqb_eq in E. rewrite (N E). reflexivity. }
+  subst s'. repeat split.
+  - rewrite step_blk by reflexivity. cbn zeta. cbn [handled]. unfold handle_set_power. cbn [andb]. rewrite R. reflexivity.
+  - unfold spec_effect. rewrite step_status by reflexivity. cbn [handled]. unfold handle_set_power. cbn [andb].
+    destruct (status_eqb (st_last s) NotWorking) eqn:E; cbn [andb]; [|reflexivity].
+    apply status_eqb_eq in E. unfold settled. rewrite (N E). reflexivity.
+  - rewrite step_bat. reflexivity.
+  - rewrite step_inv. reflexivity.
+Qed.
